@@ -54,8 +54,28 @@ def runner(prop, fam, tier, seed, replay):
     return 1 if 1 in rcs else 0
 
 
-CHECKS = {"C02": dict(DHCP4, runner=runner)}
-MANIFEST = {"C02": dict(
+FASTPATH = dict(
+    pkg="./dhcp4", test="TestExploreFP", spec_dir="Dhcp4", impl_module="Dhcp4FpImpl", design=[],
+    watch=["FpWellFormed", "FpReplyType", "FpSameAsSlow", "PassUnmodified", "FpOnlyForBound"],
+    assumptions=[
+        "bpf/dhcp_fastpath.c is compiled as user-space C from /repo's current tree with shim helper headers (cshim/); kernel verifier, JIT and real XDP driver are not involved; bpf_xdp_adjust_tail is emulated with 1 KiB of tailroom",
+        "the cache is real kernel eBPF maps (sizes from the C declarations) written by the real dhcp.Server/PoolManager through the real ebpf.Loader (maps injected by reflection; Loader.SetServerConfig called as Server.Start would); the harness mirrors raw map bytes into the native program",
+        "well-formedness and field extraction of a transmitted frame (checksum, lengths, ports, xid, chaddr, options via the dhcpv4 library) is the trusted byte-level step; 'same as userspace' compares the option fields with those of the last ACK the real userspace server sent to that client",
+        "frame battery: 13 frame classes per client (300-byte BOOTP, larger option areas, pad-before-53 layout, 802.1Q, QinQ, IHL 6, relayed with option 82, broadcast flag + ciaddr, short, RELEASE, INFORM, REQUEST for a foreign address) x 2 kernel-clock values, in every explored server state",
+        "expiry is judged from the userspace cleanup tick (the kernel-side expiry comparison uses a different clock and is not relied upon)",
+    ],
+    explanation="The Dhcp4 contract's ghost (what userspace ACKed to whom) is advanced over the table of the real userspace server; at every node the natively compiled XDP program's answers "
+                "to a frame battery on the mirrored kernel maps are judged by Dhcp4FpImpl.tla.",
+)
+CHECKS = {"C02": dict(DHCP4, runner=runner), "C03": FASTPATH}
+MANIFEST = {"C03": dict(
+    engine="tlc-table", category="model_checking", design_ref="DESIGN.md section 7 C03",
+    text="TLC walks the transition table of the real userspace DHCPv4 server (whose fast-path cache is real kernel maps written through the real loader) and judges, at every reachable state, "
+         "the replies of the natively compiled bpf/dhcp_fastpath.c to a battery of request frames against the contract: transmitted replies well-formed and equal to what userspace ACKed, "
+         "passed frames byte-identical, no answer for released/declined/expired/unknown clients.",
+    technique="TLA+ DHCP contract ghost + TLC over the userspace server's table with native-C fast-path answers at every state (differential against the slow path's own ACK)",
+    note="trusted: cshim map runtime and xdp context emulation, frame builder/decoder, clang; needs CAP_BPF for kernel maps (exit 2 otherwise); bounded frame battery, not all frames"),
+    "C02": dict(
     engine="tlc-table", category="model_checking", design_ref="DESIGN.md section 7 C02",
     text="TLC model-checks the DHCP contract (Dhcp4Design) and then walks transition tables and random traces extracted from the real DHCPv4 and DHCPv6 servers "
          "(all message sequences of 2-3 clients to a depth/node bound, incl. INIT-REBOOT requests for gateway/foreign/free addresses, DECLINE, RELEASE, relayed with option 82, "
